@@ -83,7 +83,8 @@ SANCTIONED: Dict[Tuple[str, str], List[Tuple[str, str, str]]] = {
     ("responses", "FileResponse.handle_several_ranges"): [("*", r"'(open|seek|create_send_or_zerocopy|open_for_sendfile)'|'rb'", "file reading vocabulary (C02)")],
     ("responses", "FileResponse.__call__"): [("asgi", r"^\('const', \"'headers'\"\)", "header scan loop")],
     ("responses", "SendEventResponse.render_stream"): [("*", r"'(close|aclose|submit|push|__iter__|__next__)'", "relay thread (WSGI) vs relay task (ASGI); hand-off checked by C06"),
-                                                       ("wsgi", r"^\('const', '0\.\d+'\)", "poll interval of the WSGI consumer's drain-until-done loop (a thread cannot be cancelled; C06/R6.3)")],
+                                                       ("wsgi", r"^\('const', '0\.\d+'\)", "poll interval of the WSGI consumer's drain-until-done loop (a thread cannot be cancelled; C06/R6.3)"),
+                                                       ("*", r"^\('raise', '_L', \('finally', '(not \(?_L\)?|not _L\.cancel\(\))', '_L is not None'\)\)", "the relay's own exception is re-raised unless the relay was cancelled: WSGI takes cancel()'s result before its drain loop (a pool future that never started must not be waited for), ASGI tests it in place")],
     ("responses", "SendEventResponse.render_stream.push"): [("*", r"'(close|aclose|__iter__|__next__)'", "iterator protocol vocabulary")],
     ("responses", "StreamResponse.render_stream"): [("asgi", r"'(close|aclose)'", "ASGI closes the async iterable itself; a WSGI server calls close() on the response iterable")],
     ("responses", "StreamingResponse.__call__"): [("asgi", r"'(close|send|wait_close)'", "disconnect watcher and generator driving are ASGI plumbing (C06)")],
